@@ -2,5 +2,5 @@
 From Coq Require Import ZArith Bool List.
 From Verif Require Import Fmt.RegList.
 Local Open Scope Z_scope.
-Lemma reglist_roundtrip_q0 : forallb check_mask (zrange 0 16384%nat) = true.
+Lemma reglist_roundtrip_q0 : forallb (fun m => chk (parse_reglist (fmt_reglist a32_reg m)) m) (zrange 0 16384) = true.
 Proof. vm_compute. reflexivity. Qed.
